@@ -14,6 +14,7 @@ variable {κ : Type} [DecidableEq κ]
     Exports (append or fresh) are always allowed. -/
 def InScope (s : State κ) : Op → Prop
   | .exportFile _ => True
+  | .reload => True
   | .store p o => (o.map (·.1)).Nodup ∧
       ∀ i e outs, dbIndex p s.db = some i → alook i s.file = some e → alook p s.db = some outs →
         ∀ n v, alook n o = some v → n ∈ e.keys → alook n outs = some v
@@ -27,16 +28,21 @@ structure Inv (H : Pt → κ) (s : State κ) : Prop where
   /-- Every point whose file entry is missing or incomplete is pending. -/
   cover : s.file ≠ [] → ∀ i p outs, s.db[i]? = some (p, outs) →
     p ∈ s.pend.map (·.2) ∨ ∃ e, alook i s.file = some e ∧ EntryComplete s.db i e
+  /-- The file is a complete image of the database as it was at the last export (a ghost
+      snapshot): this is what a restart reads back. -/
+  snap : ∃ dbE, DbWF dbE ∧ FileOK dbE s.file ∧
+    ∀ i p outs, dbE[i]? = some (p, outs) → ∃ e, alook i s.file = some e ∧ EntryComplete dbE i e
 
 theorem inv_init (H : Pt → κ) : Inv H (State.init : State κ) :=
   ⟨⟨by simp [State.init], by simp [State.init]⟩, ⟨by simp [State.init], by simp [State.init]⟩,
-   by simp [State.init], by simp [State.init], by simp [State.init]⟩
+   by simp [State.init], by simp [State.init], by simp [State.init],
+   ⟨[], ⟨by simp, by simp⟩, ⟨by simp [State.init], by simp [State.init]⟩, by simp⟩⟩
 
 theorem inv_store (H : Pt → κ) (hinj : Function.Injective H) (s : State κ) (hs : Inv H s)
     (p : Pt) (o : Outs) (hsc : InScope s (.store p o)) : Inv H (doStore H s p o) := by
   obtain ⟨ndo, hover⟩ := hsc
   have wf' := dbStore_wf hs.wf p ndo
-  refine ⟨wf', ⟨hs.file.idx, ?_⟩, ?_, ?_, ?_⟩
+  refine ⟨wf', ⟨hs.file.idx, ?_⟩, ?_, ?_, ?_, hs.snap⟩
   · -- the file stays consistent with the updated database
     intro ie hie
     have hie : ie ∈ s.file := hie
@@ -125,11 +131,81 @@ theorem inv_export (H : Pt → κ) (s : State κ) (hs : Inv H s) (append : Bool)
         · exact absurd ⟨p, hp, dbIndex_of_getElem hs.wf.pts hget⟩ ht
         · exact ⟨e, by rw [huntouched i ht]; exact he, hc⟩
     refine ⟨{ db := s.db, pend := [], file := F' }, by simp [hrun], ?_, rfl, rfl, hall⟩
-    exact ⟨hs.wf, hF', by simp, by simp, fun _ i p outs hget => Or.inr (hall i p outs hget)⟩
+    exact ⟨hs.wf, hF', by simp, by simp, fun _ i p outs hget => Or.inr (hall i p outs hget),
+      ⟨s.db, hs.wf, hF', hall⟩⟩
   · simp only [hb, if_false, Bool.false_eq_true]
     obtain ⟨F, hF, hok, _, hall⟩ := exportAll_spec s.db hs.wf
     refine ⟨{ db := s.db, pend := [], file := F }, by simp [hF], ?_, rfl, rfl, hall⟩
-    exact ⟨hs.wf, hok, by simp, by simp, fun _ i p outs hget => Or.inr (hall i p outs hget)⟩
+    exact ⟨hs.wf, hok, by simp, by simp, fun _ i p outs hget => Or.inr (hall i p outs hget),
+      ⟨s.db, hs.wf, hok, hall⟩⟩
+
+theorem foldl_addPending_spec (H : Pt → κ) (S : List Pt) (d : Db) (acc : List (κ × Pt))
+    (hd : ∀ po ∈ d, po.1 ∈ S) (hacc : ∀ hq ∈ acc, hq.1 = H hq.2 ∧ hq.2 ∈ S) :
+    ∀ hq ∈ d.foldl (fun pend po => addPending H pend po.1) acc, hq.1 = H hq.2 ∧ hq.2 ∈ S := by
+  induction d generalizing acc with
+  | nil => simpa using hacc
+  | cons po t ih =>
+    simp only [List.foldl_cons]
+    apply ih _ (fun q hq => hd q (List.mem_cons_of_mem _ hq))
+    intro hq hhq
+    rcases addPending_sub H hhq with h | h
+    · exact hacc hq h
+    · subst h; exact ⟨rfl, hd po (by simp)⟩
+
+/-- A restart (`Database.from_hdf` / `update_from_hdf` into a new database) re-establishes the
+    invariant: the new database is what the file holds, and the file is complete for it. -/
+theorem inv_reload (H : Pt → κ) (s : State κ) (hs : Inv H s) :
+    ∃ s', doReload H s = some s' ∧ Inv H s' ∧ s'.file = s.file := by
+  obtain ⟨dbE, wfE, hFE, hallE⟩ := hs.snap
+  obtain ⟨d, hd, heq, wfd⟩ := readFile_complete dbE wfE s.file hFE hallE
+  have hpts := heq.points
+  -- every entry of the file is complete for the reloaded database
+  have hcompl : ∀ i e, EntryComplete dbE i e → EntryComplete d i e := by
+    intro i e ⟨p, outs, L, hget, hx, hlay, ndL, hoe⟩
+    unfold DbEq at heq
+    have hlen := heq.length_eq
+    have hi : i < dbE.length := by
+      by_contra hn
+      rw [List.getElem?_eq_none (by omega)] at hget; cases hget
+    have hid : i < d.length := by omega
+    have hrel := (List.forall₂_iff_get.mp heq).2 i hid hi
+    simp only [List.get_eq_getElem] at hrel
+    have hdbE : dbE[i] = (p, outs) := by
+      have := List.getElem?_eq_getElem hi
+      rw [hget] at this; exact (Option.some.inj this).symm
+    rw [hdbE] at hrel
+    refine ⟨d[i].1, d[i].2, L, by simp [hid], by rw [hx, hrel.1], hlay, ndL, ?_⟩
+    intro n
+    rw [hoe n]; exact (hrel.2 n).symm
+  have hall : ∀ i p outs, d[i]? = some (p, outs) → ∃ e, alook i s.file = some e ∧ EntryComplete d i e := by
+    intro i p outs hget
+    have hlen := (show List.Forall₂ _ d dbE from heq).length_eq
+    have hid : i < d.length := by
+      by_contra hn
+      rw [List.getElem?_eq_none (by omega)] at hget; cases hget
+    obtain ⟨e, he, hc⟩ := hallE i dbE[i].1 dbE[i].2 (by simp [show i < dbE.length by omega])
+    exact ⟨e, he, hcompl i e hc⟩
+  have hFd : FileOK d s.file := by
+    refine ⟨hFE.idx, ?_⟩
+    intro ie hie
+    have hlook : alook ie.1 s.file = some ie.2 := alook_of_mem_nodup hFE.idx hie
+    obtain ⟨p, outs, L, hget, _⟩ := hFE.ok ie hie
+    obtain ⟨e, he, hc⟩ := hallE ie.1 p outs hget
+    rw [hlook] at he
+    injection he with he; subst he
+    exact (hcompl ie.1 ie.2 hc).ok
+  have hpend := foldl_addPending_spec H (d.map (·.1)) d []
+    (fun po hpo => List.mem_map.mpr ⟨po, hpo, rfl⟩) (by simp)
+  refine ⟨{ db := d, pend := d.foldl (fun pend po => addPending H pend po.1) [], file := s.file },
+    by simp [doReload, hd], ?_, rfl⟩
+  exact ⟨wfd, hFd, fun hq hhq => (hpend hq hhq).2, fun hq hhq => (hpend hq hhq).1,
+    fun _ i p outs hget => Or.inr (hall i p outs hget), ⟨d, wfd, hFd, hall⟩⟩
+
+theorem foldl_doStore_file (H : Pt → κ) (s : State κ) (sts : List (Pt × Outs)) :
+    (sts.foldl (fun st po => doStore H st po.1 po.2) s).file = s.file := by
+  induction sts generalizing s with
+  | nil => rfl
+  | cons po t ih => simp only [List.foldl_cons]; rw [ih]; rfl
 
 theorem nodupB_iff (l : List String) : nodupB l = true ↔ l.Nodup := by
   induction l with
@@ -141,6 +217,7 @@ omit [DecidableEq κ] in
 theorem inScope_of_inScopeB (s : State κ) (op : Op) (h : inScopeB s op = true) : InScope s op := by
   cases op with
   | exportFile a => trivial
+  | reload => trivial
   | store p o =>
     simp only [inScopeB, Bool.and_eq_true] at h
     refine ⟨(nodupB_iff _).mp h.1, ?_⟩
